@@ -396,6 +396,26 @@ def step (w : World) (line : String) : World × String :=
   | [] => (w, "")
   | _ => (w, "bad-op")
 
+def fmtNodeKind : NodeKind → String
+  | .operation i => s!"o{i}" | .machine m => s!"m{m}" | .job j => s!"j{j}"
+  | .global => "g" | .source => "S" | .sink => "T"
+
+def fmtEType : EType → String
+  | .conjunctive => "c" | .disjunctive => "d" | .untyped => "u"
+
+def fmtGraph (g : Graph) : String :=
+  let nodes := " ".intercalate (g.nodes.map fmtNodeKind)
+  let removed := String.join (g.removed.map fun b => if b then "1" else "0")
+  let edges := " ".intercalate (g.edges.map fun (u, v, t) => s!"{u}>{v}:{fmtEType t}")
+  s!"nodes {nodes} | removed {removed} | edges {edges}"
+
+def parseBuilder : String → Option Builder
+  | "disjunctive" => some .disjunctive
+  | "agent_task" => some .agentTask
+  | "agent_task_jobs" => some .agentTaskJobs
+  | "complete_agent_task" => some .completeAgentTask
+  | _ => none
+
 /-! ## the feature world -/
 
 structure DW where
@@ -423,6 +443,7 @@ def fkindName : FKind → String
   | .isScheduled => "is_scheduled" | .positionInJob => "position_in_job" | .remainingOps => "remaining_operations"
   | .isCompleted => "is_completed" | .composite => "composite" | .unscheduled => "unscheduled"
   | .history => "history" | .makespanReward => "makespan_reward" | .idleReward => "idle_reward"
+  | .residual => "residual"
 
 def parseFts (t : String) : Option (Option (List FT)) :=
   if t == "-" then some none else
@@ -441,6 +462,7 @@ def fmtFObs (I : Instance) (id : Nat) (o : FObs) : String :=
   | .makespanReward => s!"{id}:makespan_reward {fmtInts o.rewards} cur {o.curMakespan}"
   | .idleReward => s!"{id}:idle_reward {fmtInts o.rewards}"
   | .composite => s!"{id}:composite({fmtNats o.parts}) {cols}"
+  | .residual => s!"{id}:residual({fmtNats o.parts}) {fmtGraph o.graph}"
   | k => s!"{id}:{fkindName k} {cols}"
 
 def fworldSnapshot (w : FWorld) : String :=
@@ -484,6 +506,18 @@ def stepAll (d : DW) (line : String) : DW × String :=
         | (fw', none) => ({ d with fw := fw' }, "raise"))
      | none => (d, "bad-op"))
   | ["fsnap"] => (d, fworldSnapshot d.fw)
+  | ["graph", b] =>
+    match parseBuilder b with
+    | some bb => (d, fmtGraph (build bb d.w.cfg.I))
+    | none => (d, "bad-op")
+  | ["solved"] => (d, fmtGraph (buildSolved d.w.cfg.I d.w.s))
+  | ["fres", b, rm, rj] =>
+    match parseBuilder b with
+    | some bb =>
+      (match d.fw.constructResidual (build bb d.fw.cfg.I) (rm == "1") (rj == "1") with
+       | (fw', some id) => ({ d with fw := fw' }, toString id)
+       | (fw', none) => ({ d with fw := fw' }, "raise"))
+    | none => (d, "bad-op")
   | _ =>
     let (w', out) := step d.w line
     ({ d with w := w' }, out)
